@@ -13,7 +13,7 @@
 //
 // Oracle: the process is alive; the canary client's Read round trip stays
 // below 2 s during the case and after the attackers have gone; a new client
-// (connect, HEL/ACK, OPN, Read) is served within 2 s afterwards. A slow or
+// (connect, HEL/ACK, OPN, session, Read) is served within 2 s afterwards. A slow or
 // failed canary is confirmed by repeating the case twice on fresh servers;
 // only 3/3 is a violation.
 package c29
@@ -30,7 +30,6 @@ import (
 	"testing"
 	"time"
 
-	"github.com/gopcua/opcua/id"
 	"github.com/gopcua/opcua/ua"
 	"pgregory.net/rapid"
 
@@ -70,6 +69,10 @@ type caseT struct {
 
 type outcome struct {
 	msg      string // candidate violation ("" = held)
+	crashed  bool   // the server process ended during the case
+	maxRTT   time.Duration
+	control  time.Duration // largest round trip of the control canary (unattacked server) during the case
+	noisy    bool          // the control server was slow too: the machine, not the attack
 	infra    error
 	mu       sync.Mutex
 	classes  []string
@@ -167,7 +170,7 @@ func (r *runT) conn(i int) (*attConn, error) {
 	if a := r.conns[i]; a != nil && !a.dead {
 		return a, nil
 	}
-	a, err := dialAtt(r.e.addr, r.e.srv.URL)
+	a, err := dialAtt(r.e.addr, r.e.url)
 	if err != nil {
 		return nil, err
 	}
@@ -179,8 +182,20 @@ func (r *runT) conn(i int) (*attConn, error) {
 	return a, nil
 }
 
+var (
+	phaseMu sync.Mutex
+	phases  = map[string]time.Duration{}
+)
+
+func phase(name string, t0 time.Time) {
+	phaseMu.Lock()
+	phases[name] += time.Since(t0)
+	phaseMu.Unlock()
+}
+
 func (r *runT) step(s stepT) {
 	o := r.o
+	defer phase("step:"+s.Kind+":"+s.Type, time.Now())
 	switch s.Kind {
 	case "req":
 		a, err := r.conn(s.Conn)
@@ -204,23 +219,36 @@ func (r *runT) step(s stepT) {
 			o.class("outcome:write-failed")
 			return
 		}
-		wait := 1500 * time.Millisecond
-		if s.Type == "PublishRequest" {
-			wait = 120 * time.Millisecond
+		wait := 600 * time.Millisecond
+		switch {
+		case s.Type == "PublishRequest":
+			wait = 100 * time.Millisecond // queued by the server, answered only when there is something to publish
+		case len(rest) > 50000:
+			wait = 2500 * time.Millisecond
 		}
 		v, err := a.recv(rid, wait)
 		switch {
 		case err == errNoResponse:
-			o.class("outcome:no-response")
+			o.class("outcome:no-response:%s", s.Type)
 			if s.Type != "PublishRequest" {
 				a.close(false)
 			}
 		case err != nil:
 			o.class("outcome:connection-closed")
 		default:
-			o.mu.Lock()
-			o.handlers[s.Type] = true
-			o.mu.Unlock()
+			reached := true
+			if f, ok := v.(*ua.ServiceFault); ok {
+				// a request refused for its token before dispatch did not reach its handler
+				st := f.ResponseHeader.ServiceResult
+				if (st == ua.StatusBadSessionIDInvalid || st == ua.StatusBadSessionNotActivated) && s.Type != "ActivateSessionRequest" && s.Type != "CloseSessionRequest" {
+					reached = false
+				}
+			}
+			if reached {
+				o.mu.Lock()
+				o.handlers[s.Type] = true
+				o.mu.Unlock()
+			}
 			if f, ok := v.(*ua.ServiceFault); ok {
 				o.class("outcome:fault:%s", statusName(f.ResponseHeader.ServiceResult))
 			} else {
@@ -384,11 +412,11 @@ func (r *runT) abortAt(stage string, hold time.Duration) {
 		}
 		if base == "hel-partial" {
 			c.SetWriteDeadline(time.Now().Add(2 * time.Second))
-			c.Write(refnone.Hello(refnone.DefaultLimits, r.e.srv.URL)[:5])
+			c.Write(refnone.Hello(refnone.DefaultLimits, r.e.url)[:5])
 		}
 		finish()
 	case "hel", "after-hel", "opn-partial":
-		rc, err := refnone.Dial(r.e.addr, r.e.srv.URL, refnone.DefaultLimits, 3*time.Second)
+		rc, err := refnone.Dial(r.e.addr, r.e.url, refnone.DefaultLimits, 3*time.Second)
 		if err != nil {
 			return
 		}
@@ -400,13 +428,13 @@ func (r *runT) abortAt(stage string, hold time.Duration) {
 		}
 		finish()
 	case "opn", "session":
-		a, err := dialAtt(r.e.addr, r.e.srv.URL)
+		a, err := dialAtt(r.e.addr, r.e.url)
 		if err != nil {
 			return
 		}
 		c = a.ch.Conn.Conn
 		if base == "session" {
-			a.call(&ua.CreateSessionRequest{ClientDescription: &ua.ApplicationDescription{ApplicationName: &ua.LocalizedText{}}, EndpointURL: r.e.srv.URL, RequestedSessionTimeout: 1000}, nil, 2*time.Second)
+			a.call(&ua.CreateSessionRequest{ClientDescription: &ua.ApplicationDescription{ApplicationName: &ua.LocalizedText{}}, EndpointURL: r.e.url, RequestedSessionTimeout: 1000}, nil, 2*time.Second)
 		}
 		finish()
 	}
@@ -416,27 +444,30 @@ func (r *runT) abortAt(stage string, hold time.Duration) {
 // of the pools is read and browsed, a variable is written (which notifies the
 // monitored items), through a new connection.
 func (r *runT) probe() {
-	a, err := dialAtt(r.e.addr, r.e.srv.URL)
+	a, err := dialAtt(r.e.addr, r.e.url)
 	if err != nil {
 		return // the final checks report a server that no longer accepts clients
 	}
 	defer a.close(false)
+	if err := a.openSession(r.e.url); err != nil {
+		return
+	}
 	var rv []*ua.ReadValueID
 	var bd []*ua.BrowseDescription
 	for _, n := range knownNodes {
 		for _, at := range []ua.AttributeID{ua.AttributeIDValue, ua.AttributeIDNodeClass, ua.AttributeIDBrowseName, ua.AttributeIDDisplayName, ua.AttributeIDAccessLevel, ua.AttributeIDUserAccessLevel, ua.AttributeIDDataType} {
 			rv = append(rv, &ua.ReadValueID{NodeID: n, AttributeID: at, DataEncoding: &ua.QualifiedName{}})
 		}
-		bd = append(bd, &ua.BrowseDescription{NodeID: n, BrowseDirection: ua.BrowseDirectionBoth, ReferenceTypeID: ua.NewNumericNodeID(0, id.References), IncludeSubtypes: true, ResultMask: 63})
+		bd = append(bd, &ua.BrowseDescription{NodeID: n, BrowseDirection: ua.BrowseDirectionBoth, ReferenceTypeID: ua.NewTwoByteNodeID(0), IncludeSubtypes: true, ResultMask: 63})
 	}
-	a.call(&ua.ReadRequest{TimestampsToReturn: ua.TimestampsToReturnBoth, NodesToRead: rv}, nil, 3*time.Second)
-	a.call(&ua.BrowseRequest{View: &ua.ViewDescription{ViewID: ua.NewTwoByteNodeID(0)}, NodesToBrowse: bd}, nil, 3*time.Second)
+	a.call(&ua.ReadRequest{TimestampsToReturn: ua.TimestampsToReturnBoth, NodesToRead: rv}, a.token, 3*time.Second)
+	a.call(&ua.BrowseRequest{View: &ua.ViewDescription{ViewID: ua.NewTwoByteNodeID(0)}, NodesToBrowse: bd}, a.token, 3*time.Second)
 	for _, name := range []string{"v0", "v1", "canary"} {
 		a.call(&ua.WriteRequest{NodesToWrite: []*ua.WriteValue{{NodeID: ua.NewStringNodeID(nsTest, name), AttributeID: ua.AttributeIDValue,
-			Value: &ua.DataValue{EncodingMask: ua.DataValueValue, Value: ua.MustVariant(int32(r.e.cases))}}}}, nil, 3*time.Second)
+			Value: &ua.DataValue{EncodingMask: ua.DataValueValue, Value: ua.MustVariant(int32(r.e.cases))}}}}, a.token, 3*time.Second)
 	}
 	a.call(&ua.WriteRequest{NodesToWrite: []*ua.WriteValue{{NodeID: ua.NewStringNodeID(nsMap, "k1"), AttributeID: ua.AttributeIDValue,
-		Value: &ua.DataValue{EncodingMask: ua.DataValueValue, Value: ua.MustVariant(int32(r.e.cases))}}}}, nil, 3*time.Second)
+		Value: &ua.DataValue{EncodingMask: ua.DataValueValue, Value: ua.MustVariant(int32(r.e.cases))}}}}, a.token, 3*time.Second)
 }
 
 // runCase executes a case against e and judges it.
@@ -449,34 +480,51 @@ func runCase(e *envT, c caseT) *outcome {
 	if len(c.Conns) > 8 {
 		c.Conns = c.Conns[:8]
 	}
+	tSetup := time.Now()
 	// victim session: the foreign ids
-	v, err := dialAtt(e.addr, e.srv.URL)
+	v, err := dialAtt(e.addr, e.url)
 	if err == nil {
-		if err = v.openSession(e.srv.URL); err == nil {
+		if err = v.openSession(e.url); err == nil {
 			err = v.benignSub(ua.NewStringNodeID(nsTest, "v1"))
 		}
 	}
+	e.hist = append(e.hist, c)
 	if err != nil {
+		if e.dead() {
+			o.crashed = true
+			o.msg = "the server process ended: " + e.crashText()
+			return o
+		}
 		o.infra = fmt.Errorf("victim session: %w", err)
 		return o
 	}
 	r.victim = v
 	o.handlers["CreateSessionRequest"], o.handlers["ActivateSessionRequest"] = true, true
 	for i, spec := range c.Conns {
-		a, err := dialAtt(e.addr, e.srv.URL)
+		a, err := dialAtt(e.addr, e.url)
 		if err == nil && spec.Session {
-			if err = a.openSession(e.srv.URL); err == nil && spec.Sub {
+			if err = a.openSession(e.url); err == nil && spec.Sub {
 				err = a.benignSub(ua.NewStringNodeID(nsTest, "v0"))
 			}
 		}
 		if err != nil {
+			if e.dead() {
+				o.crashed = true
+				o.msg = "the server process ended: " + e.crashText()
+				return o
+			}
 			o.infra = fmt.Errorf("attacker connection %d: %w", i, err)
 			return o
 		}
 		r.conns = append(r.conns, a)
 		o.class("conn:session=%v,sub=%v", spec.Session, spec.Session && spec.Sub)
 	}
+	phase("setup", tSetup)
 	w := e.watch()
+	var cw *watcher
+	if ctl := controlEnv(); ctl != nil && ctl != e {
+		cw = ctl.watch()
+	}
 	if c.Parallel && len(r.conns) > 1 {
 		o.class("case:parallel")
 		var wg sync.WaitGroup
@@ -503,11 +551,14 @@ func runCase(e *envT, c caseT) *outcome {
 			r.step(s)
 		}
 	}
+	tEnd := time.Now()
 	for _, a := range r.conns {
 		a.close(c.Reset)
 	}
 	time.Sleep(5 * time.Millisecond)
 	r.probe()
+	phase("probe", tEnd)
+	tEnd = time.Now()
 	max, reads, werr := w.finish()
 	// the attackers have gone
 	d1, err1 := e.canaryRead()
@@ -517,6 +568,20 @@ func runCase(e *envT, c caseT) *outcome {
 		v.call(&ua.DeleteSubscriptionsRequest{SubscriptionIDs: v.subs}, v.token, time.Second)
 	}
 	v.close(false)
+	phase("final-checks", tEnd)
+	if cw != nil {
+		cmax, _, cerr := cw.finish()
+		o.control = cmax
+		// an identical server that nobody attacks must have been answering promptly
+		// all the time, otherwise a slow canary says nothing about the attack
+		o.noisy = cerr != nil || cmax >= controlBound
+	}
+	time.Sleep(2 * time.Millisecond)
+	if e.dead() {
+		o.crashed = true
+		o.msg = "the server process ended: " + e.crashText()
+		return o
+	}
 	switch {
 	case werr != nil:
 		o.candidate("canary read failed while the attackers were active: %v", werr)
@@ -533,42 +598,116 @@ func runCase(e *envT, c caseT) *outcome {
 	}
 	o.class("conns:%d", len(c.Conns))
 	o.class("handlers:%d", len(o.handlers))
+	o.maxRTT = max
+	if d1 > o.maxRTT {
+		o.maxRTT = d1
+	}
+	if d2 > o.maxRTT {
+		o.maxRTT = d2
+	}
 	return o
 }
 
-// judge runs the case on the shared server; a candidate violation is repeated
-// twice on fresh servers and only 3/3 counts.
-func judge(c caseT) (msg string, o *outcome, infra error) {
+// judge runs the case on the shared server host. A candidate violation is
+// repeated twice, each time on a fresh server process; only 3/3 counts.
+// A server crash that does not reproduce with the case alone is reported with
+// the whole history of its host (every case that server had executed).
+func judge(c caseT) (msg string, o *outcome, replayCase any, infra error) {
+	envMu.Lock()
+	if env != nil && !env.dirty && env.dead() {
+		// the server died after its last case had been judged (a delayed effect)
+		env.dirty = true
+		hist := append([]caseT{}, env.hist...)
+		text := env.crashText()
+		envMu.Unlock()
+		return "the server process ended between two cases: " + text + fmt.Sprintf(" (the replay holds all %d cases this server had executed)", len(hist)),
+			&outcome{handlers: map[string]bool{}, crashed: true}, historyT{History: hist}, nil
+	}
+	envMu.Unlock()
+	tEnv := time.Now()
 	e, err := getEnv()
+	phase("server-host-start", tEnv)
 	if err != nil {
-		return "", nil, err
+		return "", nil, nil, err
 	}
 	o = runCase(e, c)
 	if o.infra != nil {
 		e.dirty = true
-		return "", o, o.infra
+		return "", o, nil, o.infra
 	}
 	if o.msg == "" {
-		return "", o, nil
+		return "", o, nil, nil
 	}
 	e.dirty = true
+	if o.noisy && !o.crashed {
+		rec.Inconclusive()
+		o.class("verdict:inconclusive-machine-loaded")
+		fmt.Printf("INCONCLUSIVE (the unattacked control server needed %v as well): %s\n", o.control.Round(time.Millisecond), o.msg)
+		return "", o, nil, nil
+	}
+	defer phase("confirmation", time.Now())
 	first := o.msg
-	for i := 0; i < 2; i++ {
-		fe, err := newEnv()
+	hist := append([]caseT{}, e.hist...)
+	need := 2
+	if o.crashed {
+		need = 1
+	}
+	for i := 0; i < need; i++ {
+		fe, err := newEnv("")
 		if err != nil {
-			return "", o, err
+			return "", o, nil, err
 		}
 		o2 := runCase(fe, c)
 		fe.close()
-		if o2.infra != nil || o2.msg == "" {
-			rec.Inconclusive()
-			o.class("verdict:inconclusive")
-			b, _ := json.Marshal(summary(c))
-			fmt.Printf("INCONCLUSIVE (not reproduced on a fresh server, attempt %d): %s\n  case: %s\n", i+2, first, b)
-			return "", o, nil
+		if o2.infra == nil && o2.msg != "" && o2.crashed == o.crashed && (o2.crashed || !o2.noisy) {
+			continue
 		}
+		if o.crashed {
+			// the server did die: the history of that server is the failing input
+			o.class("verdict:crash-needs-history")
+			return first + fmt.Sprintf(" (not reproduced by the last case alone; the replay holds all %d cases this server had executed)", len(hist)), o, historyT{History: hist}, nil
+		}
+		rec.Inconclusive()
+		o.class("verdict:inconclusive")
+		b, _ := json.Marshal(summary(c))
+		fmt.Printf("INCONCLUSIVE (not reproduced on a fresh server, attempt %d): %s\n  case: %s\n", i+2, first, b)
+		return "", o, nil, nil
 	}
-	return first + " (reproduced 3/3, twice on a fresh server)", o, nil
+	if o.crashed {
+		return first + " (reproduced on a fresh server)", o, c, nil
+	}
+	return first + " (reproduced 3/3, twice on a fresh server)", o, c, nil
+}
+
+// controlBound: the control canary (same machine, same moment, unattacked
+// server) must stay below this for a timing verdict to count.
+const controlBound = 500 * time.Millisecond
+
+var (
+	ctlMu sync.Mutex
+	ctl   *envT
+)
+
+// controlEnv returns the long-lived unattacked server of this process.
+func controlEnv() *envT {
+	ctlMu.Lock()
+	defer ctlMu.Unlock()
+	if ctl != nil && ctl.dead() {
+		ctl = nil
+	}
+	if ctl == nil {
+		e, err := newEnv("")
+		if err != nil {
+			return nil
+		}
+		ctl = e
+	}
+	return ctl
+}
+
+// historyT is the replay form of a crash that needs the earlier cases too.
+type historyT struct {
+	History []caseT `json:"history"`
 }
 
 func genCase(t *rapid.T) caseT {
@@ -628,20 +767,36 @@ func summary(c caseT) any {
 }
 
 func TestAttack(t *testing.T) {
+	defer func() {
+		phaseMu.Lock()
+		defer phaseMu.Unlock()
+		var ks []string
+		for k := range phases {
+			ks = append(ks, k)
+		}
+		sort.Slice(ks, func(i, j int) bool { return phases[ks[i]] > phases[ks[j]] })
+		for i, k := range ks {
+			if i < 12 {
+				fmt.Printf("time spent in %-40s %v\n", k, phases[k].Round(time.Millisecond))
+			}
+		}
+	}()
 	rapid.Check(t, func(t *rapid.T) {
+		tGen := time.Now()
 		c := genCase(t)
+		phase("generate", tGen)
 		if len(c.Steps) == 0 {
 			t.Skip("no step")
 		}
 		rec.Journal(testName, c)
-		msg, o, infra := judge(c)
+		msg, o, rc, infra := judge(c)
 		rec.JournalDone(testName)
 		if infra != nil {
 			t.Fatalf("infrastructure (not a verdict): %v", infra)
 		}
 		record(c, o)
 		if msg != "" {
-			rec.Fail(t, testName, c, "%s", msg)
+			rec.Fail(t, testName, rc, "%s", msg)
 		}
 	})
 }
@@ -663,20 +818,39 @@ func TestReplay(t *testing.T) {
 		}
 		return
 	}
-	var c caseT
-	if err := json.Unmarshal(rp.Case, &c); err != nil {
-		t.Fatal(err)
+	var h historyT
+	_ = json.Unmarshal(rp.Case, &h)
+	if len(h.History) == 0 {
+		var c caseT
+		if err := json.Unmarshal(rp.Case, &c); err != nil {
+			t.Fatal(err)
+		}
+		h.History = []caseT{c}
 	}
 	fmt.Println("REPLAYED structured")
 	for i := 0; i < 3; i++ {
-		e, err := newEnv()
+		e, err := newEnv("")
 		if err != nil {
 			t.Fatalf("infrastructure: %v", err)
 		}
-		o := runCase(e, c)
+		var o *outcome
+		for _, c := range h.History {
+			o = runCase(e, c)
+			if o.infra != nil || o.msg != "" {
+				break
+			}
+		}
 		e.close()
 		if o.infra != nil {
 			t.Fatalf("infrastructure (not a verdict): %v", o.infra)
+		}
+		if o.crashed {
+			t.Fatalf("property C29 violated: %s", o.msg)
+		}
+		fmt.Printf("attempt %d: largest canary / new-client round trip %v (control server %v)\n", i+1, o.maxRTT.Round(time.Millisecond), o.control.Round(time.Millisecond))
+		if o.msg != "" && o.noisy {
+			fmt.Println("the unattacked control server was slow as well: machine too loaded, attempt not counted")
+			o.msg = ""
 		}
 		if o.msg == "" {
 			if i > 0 {
